@@ -413,6 +413,14 @@ fn generate_server_role(rng: &mut Rng, thorough: bool, cut_matrix: bool) -> Vec<
         }
         cut += step;
     }
+    // cuts exactly on the frame boundaries (behind the stream type, behind SETTINGS) with every event in
+    // between: nothing is in progress when the reader is interrupted there, so nothing may be lost -- in
+    // particular not the fact that SETTINGS has been seen (C13, C05: not part of the recorded finding)
+    for boundary in [1usize, ok.len()] {
+        for inj in 1..5u64 {
+            cs.push(Case::new(611, vec![vec![3, 0, inj], b2a(&b), vec![boundary as u64]], "boundary-cut-and-inject"));
+        }
+    }
     // the request HEADERS cut as well (read by the per-stream task of the accept path)
     let rl = request_bytes("/c", &[]).len();
     let mut rc = 1;
